@@ -281,8 +281,10 @@ def run(ck):
                  "peak creation gets that generator's resolution", found=T.show(a.get("resolution", C(None))), required="sequenceGenerator.resolution")
         ck.judge(a.get("blur") == T.mk_attr(gen, "blurRadius"), "C16.2", short(gi) + ":blur", w, "and its blur radius",
                  found=T.show(a.get("blur", C(None))))
-        ck.judge(a.get("correlationStart") == C(0), "C16.2", short(gi) + ":start", w, "the primary correlation starts at reference coordinate 0",
-                 found=T.show(a.get("correlationStart", C(None))), required="0")
+        from ..rules.common import arg_or_default
+        cs = arg_or_default(ck, pa.value, "correlationStart")
+        ck.judge(cs == C(0), "C16.2", short(gi) + ":start", w, "the primary correlation starts at reference coordinate 0",
+                 found=T.show(cs if cs is not None else C(None)), required="0")
         ck.judge(a.get("peaksCount") == V("peaksCount"), "C16.2", short(gi) + ":peaksCount", w, "the requested number of peaks is passed on",
                  found=T.show(a.get("peaksCount", C(None))))
         ck.judge(a.get("query") == V(gi.self_name) and a.get("reference") == V("reference"), "C16.2", short(gi) + ":maps", w,
